@@ -247,7 +247,15 @@ func c07ClassCover(n int) map[int]map[uint64]bool {
 		inFile := map[string]bool{}
 		for _, f := range fields {
 			cls := f.Struct + ":" + f.Kind + fmt.Sprintf(":w%d", f.Width) + ":" + f.ctx
-			if inFile[cls] || count[cls] >= n {
+			// library-written and reference files are covered separately: what the reader does
+			// with a structure depends on what refers to it (a heap collection behind a vlen
+			// attribute is read, one behind a vlen dataset is not)
+			if k < c07LibSeeds {
+				cls += ":lib"
+			}
+			// heap collections are few and whether the reader looks into one depends on the file:
+			// every file's first instance is covered
+			if inFile[cls] || (count[cls] >= n && f.Struct != "GCOL") {
 				continue
 			}
 			inFile[cls] = true
